@@ -234,6 +234,7 @@ def one_input(ctx, inp, cid, tmp, heavy=True):
                   silence_level=3)
 
         rg = ctx.rng("geo", cid)
+        gfmt = FORMATS[int(rg.integers(0, len(FORMATS)))]
         nwt = [None, "surface", "irrigation", "custom"][int(
             rg.integers(0, 4))]
         wc = G.pos_weights(rg, n, "loguni")
@@ -244,10 +245,10 @@ def one_input(ctx, inp, cid, tmp, heavy=True):
             if nwt == "custom":
                 net.node_weights = wc
             with_attr(net)
-            fn = (os.path.join(tmp, "geo.graphml"),
+            fn = (os.path.join(tmp, "geo." + gfmt),
                   os.path.join(tmp, "geo.grid"))
-            net.save(fn, fileformat="graphml")
-            return GeoNetwork.Load(fn, fileformat="graphml", silence_level=3)
+            net.save(fn, fileformat=gfmt)
+            return GeoNetwork.Load(fn, fileformat=gfmt, silence_level=3)
         coslat = np.cos(np.float32(lat) * np.pi / 180)
         coslat = {None: np.ones(n), "surface": coslat,
                   "irrigation": coslat ** 2, "custom": wc}[nwt]
@@ -260,12 +261,12 @@ def one_input(ctx, inp, cid, tmp, heavy=True):
                           {"exc": repr(net),
                            "edges": np.argwhere(A).tolist()}, cid)
         else:
-            check_net(ctx, net, inp_g, "GeoNetwork.save-Load", cid,
+            check_net(ctx, net, inp_g, f"GeoNetwork.save-Load:{gfmt}", cid,
                       text=True, want_w=False)
             nw = net.node_weights
             if nw is None or not np.allclose(nw, coslat, rtol=1e-5):
-                ctx.violation(f"GeoNetwork.save-Load:node_weights!=saved:"
-                              f"{icls}", {"got": nw, "want": coslat,
+                ctx.violation(f"GeoNetwork.save-Load:{gfmt}:node_weights!="
+                              f"saved:{icls}", {"got": nw, "want": coslat,
                                           "node_weight_type": nwt}, cid)
             if not np.allclose(net.grid.lat_sequence(), np.float32(lat)):
                 ctx.violation(f"GeoNetwork.save-Load:grid-differs:{icls}",
@@ -275,13 +276,13 @@ def one_input(ctx, inp, cid, tmp, heavy=True):
             net = SpatialNetwork(sg, adjacency=A, silence_level=3)
             net.node_weights = w
             with_attr(net)
-            fn = (os.path.join(tmp, "sp.graphml"),
+            fn = (os.path.join(tmp, "sp." + gfmt),
                   os.path.join(tmp, "sp.grid"))
-            net.save(fn, fileformat="graphml")
-            return SpatialNetwork.Load(fn, fileformat="graphml",
+            net.save(fn, fileformat=gfmt)
+            return SpatialNetwork.Load(fn, fileformat=gfmt,
                                        silence_level=3)
         ctx.count("roundtrips")
-        build("SpatialNetwork.save-Load", sp_rt, text=True)
+        build(f"SpatialNetwork.save-Load:{gfmt}", sp_rt, text=True)
     # internal consumers of the same construction paths
     #  (n >= 3: local_vulnerability removes one node, and a network needs
     #   two nodes for its link density to be defined)
